@@ -113,7 +113,7 @@ func checkC07(c *Check) {
 		{
 			apply := r.Calls(calling("~/internal/dmarc.Verifier.Apply"))
 			world := r.F.World(func(atom ast.Expr) (bool, bool) {
-				if fv := fieldOf(info, atom); fv != nil && fv.Name() == "doDMARC" {
+				if fv := fieldOf(info, atom); fv != nil && objName(fv) == "doDMARC" {
 					return true, true
 				}
 				return false, false
